@@ -17,7 +17,7 @@ REF_PROGS = os.path.join(core.SPEC, "lock_programs.json")
 L_ASSUME = [
     "lock events come from the cfg(cfb_verif) RwLock wrapper in /repo (src/internal/sync.rs); 'acq' is logged while the guard is held, 'rel' before it is released, order = sequence number under the log mutex",
     "CfbLock models std's futex RwLock as writer-preferring (a shared request is refused while a writer waits); TLC explores every interleaving of the extracted programs for the stated thread and call counts",
-    "the generalisation from the model-checked thread counts to N readers rests on NonReentrant (no request while holding a guard), which is checked on every recorded trace",
+    "any number of threads: CfbLockN (a thread holding a guard only releases it) is proved deadlock-free and mutually exclusive for an arbitrary thread set with tlapm (CfbLockN_proofs); MC_Lock checks that CfbLock on the extracted programs refines CfbLockN (PROPERTY Refines) for the model-checked thread counts, and Trace_Lock rejects any recorded request made while a guard is held (NonReentrant)",
     "real-thread runs: a Stream is not Send, so handles stay on the creating thread; readers share &CompoundFile through thread::scope",
 ]
 
@@ -54,8 +54,8 @@ CONSTANT ReaderProgs <- MCReaderProgs
 CONSTANT HandleProgs <- MCHandleProgs
 CONSTANT MaxCalls = {maxcalls}
 CONSTANT NReaders = {nreaders}
-INVARIANT MutualExclusion
-PROPERTY Termination
+INVARIANT MutualExclusion AbsProgress
+PROPERTY Termination Refines
 CHECK_DEADLOCK TRUE
 """)
     try:
@@ -79,8 +79,29 @@ CHECK_DEADLOCK TRUE
     return what, lines
 
 
+def tlaps_lockn():
+    """Re-checks the proofs about CfbLockN (any number of threads) with tlapm.  The verdict is about the
+    model and does not drive the exit code; it is recorded in the evidence."""
+    import shutil
+    import subprocess
+    wd = core.workdir("C14_tlaps")
+    for f in ("CfbLockN.tla", "CfbLockN_proofs.tla"):
+        shutil.copy(os.path.join(core.SPEC, f), wd)
+    try:
+        p = subprocess.run(["timeout", "300", "tlapm", "--threads", "4", "CfbLockN_proofs.tla"], cwd=wd,
+                           stdout=subprocess.PIPE, stderr=subprocess.STDOUT, text=True)
+        m = re.search(r"All (\d+) obligations? proved", p.stdout)
+        return {"tool": "tlapm", "module": "CfbLockN_proofs", "proved": bool(m), "obligations": int(m.group(1)) if m else 0,
+                "tail": "" if m else p.stdout[-400:]}
+    except Exception as e:   # tlapm missing: say so, do not fail the check
+        return {"tool": "tlapm", "proved": False, "error": str(e)}
+
+
 def check_c14(tier, seed):
     out = Outcome("C14", tier, seed)
+    proof = tlaps_lockn()
+    if not proof.get("proved"):
+        print(f"NOTE C14 tlapm did not re-prove CfbLockN_proofs: {proof}")
     progs, by_call = extract_programs(out)
     if not progs["reader"] or not progs["handle"]:
         raise core.ToolError("program extraction produced nothing")
@@ -116,7 +137,7 @@ def check_c14(tier, seed):
                   "lock programs of every read-only method / iterator step / handle operation are extracted from the real library under the instrumented lock, "
                   "CfbLock is model checked (deadlock, termination) on exactly those programs, and real runs of 1-4 reader threads against the handle thread are "
                   "validated by Trace_Lock (NonReentrant, mutual exclusion, hold depth, linearisable lengths, deadlock on stall); distinct = distinct run scripts",
-                  L_ASSUME, {"lock_programs": extracted, "spec_drift": drift})
+                  L_ASSUME, {"lock_programs": extracted, "spec_drift": drift, "any_n_proof": proof})
 
 
 LCHECKS = {"C14": check_c14}
